@@ -434,4 +434,1003 @@ theorem srvRun_eq (r : SrvReg) (srv : Nat) (isDefault : Bool) :
 theorem notNotify_spec (r : NotReg) :
     (notNotify r).2 = r.map (fun p => (p.2.1, p.1)) ∧ (notNotify r).1 = r.filter (fun p => !p.2.2) := ⟨rfl, rfl⟩
 
+/-! ### the ordered dict `active` -/
+
+abbrev Active := List (Str × List Entry)
+
+def akeys (act : Active) : List Str := act.map (·.1)
+def aentries (act : Active) : List Entry := act.flatMap (·.2)
+
+theorem lookupKey_of_not_mem (key : Str) : ∀ (act : Active), key ∉ akeys act → lookupKey key act = []
+  | [], _ => rfl
+  | (k, es) :: rest, h => by
+    simp only [akeys, List.map_cons, List.mem_cons, not_or] at h
+    have hk : ¬ k = key := fun e => h.1 e.symm
+    simp only [lookupKey, hk, if_false]
+    exact lookupKey_of_not_mem key rest h.2
+
+theorem akeys_activeAppend (key : Str) (e : Entry) : ∀ (act : Active),
+    akeys (activeAppend key e act) = if key ∈ akeys act then akeys act else akeys act ++ [key]
+  | [] => by simp [activeAppend, akeys]
+  | (k, es) :: rest => by
+    unfold activeAppend
+    by_cases h : k = key
+    · subst h; simp [akeys]
+    · have ih := akeys_activeAppend key e rest
+      have hne : ¬ key = k := fun e => h e.symm
+      simp only [h, if_false, akeys, List.map_cons, List.mem_cons, hne, false_or] at ih ⊢
+      rw [ih]
+      split <;> simp_all
+
+theorem lookupKey_activeAppend (key : Str) (e : Entry) (key' : Str) : ∀ (act : Active),
+    lookupKey key' (activeAppend key e act) = if key' = key then lookupKey key' act ++ [e] else lookupKey key' act
+  | [] => by
+    by_cases h : key' = key
+    · subst h; simp [activeAppend, lookupKey]
+    · have : ¬ key = key' := fun e => h e.symm
+      simp [activeAppend, lookupKey, h, this]
+  | (k, es) :: rest => by
+    unfold activeAppend
+    by_cases hk : k = key
+    · subst hk
+      by_cases h : key' = k
+      · subst h; simp [lookupKey]
+      · have : ¬ k = key' := fun e => h e.symm
+        simp [lookupKey, h, this]
+    · simp only [hk, if_false, lookupKey]
+      by_cases h : k = key'
+      · subst h
+        have : ¬ k = key := hk
+        simp [this]
+      · simp only [h, if_false]
+        exact lookupKey_activeAppend key e key' rest
+
+theorem aentries_activeAppend (key : Str) (e : Entry) : ∀ (act : Active),
+    (aentries (activeAppend key e act)).Perm (e :: aentries act)
+  | [] => by simp [activeAppend, aentries]
+  | (k, es) :: rest => by
+    unfold activeAppend
+    by_cases hk : k = key
+    · subst hk
+      simp only [if_true, aentries, List.flatMap_cons, List.append_assoc]
+      have : (es ++ [e] ++ rest.flatMap (·.2)).Perm (e :: (es ++ rest.flatMap (·.2))) := by
+        rw [List.append_assoc]
+        exact (List.perm_middle (l₁ := es) (a := e) (l₂ := rest.flatMap (·.2)))
+      simpa [List.append_assoc] using this
+    · simp only [hk, if_false, aentries, List.flatMap_cons]
+      have ih := aentries_activeAppend key e rest
+      simp only [aentries] at ih
+      exact (List.Perm.append_left es ih).trans (List.perm_middle (l₁ := es) (a := e) (l₂ := rest.flatMap (·.2)))
+
+/-- removing the entry with identity `i` from a list in which identities are distinct -/
+theorem removeFirst_eq_filter (i : Ident) : ∀ (es : List Entry), (es.map Entry.ident).Nodup →
+    removeFirst i es = es.filter (fun e => e.ident != i)
+  | [], _ => rfl
+  | e :: es, h => by
+    simp only [List.map_cons, List.nodup_cons] at h
+    unfold removeFirst
+    by_cases he : e.ident = i
+    · subst he
+      simp only [if_true, List.filter_cons, bne_self_eq_false, Bool.false_eq_true, if_false]
+      symm
+      rw [List.filter_eq_self]
+      intro x hx
+      have : x.ident ≠ e.ident := fun e' => h.1 (e' ▸ List.mem_map_of_mem hx)
+      simpa using this
+    · have : (e.ident != i) = true := by simpa using he
+      simp only [he, if_false, List.filter_cons, this, if_true]
+      rw [removeFirst_eq_filter i es h.2]
+
+theorem replaceFirst_eq_map (i : Ident) (new : Entry) : ∀ (es : List Entry), (es.map Entry.ident).Nodup →
+    replaceFirst i new es = es.map (fun e => if e.ident = i then new else e)
+  | [], _ => rfl
+  | e :: es, h => by
+    simp only [List.map_cons, List.nodup_cons] at h
+    unfold replaceFirst
+    by_cases he : e.ident = i
+    · subst he
+      simp only [if_true, List.map_cons, List.cons.injEq, true_and]
+      symm
+      have : ∀ x ∈ es, (if x.ident = e.ident then new else x) = x := by
+        intro x hx
+        have : x.ident ≠ e.ident := fun e' => h.1 (e' ▸ List.mem_map_of_mem hx)
+        simp [this]
+      rw [List.map_congr_left this]
+      simp
+    · simp only [he, if_false, List.map_cons]
+      rw [replaceFirst_eq_map i new es h.2]
+
+theorem removeFirst_sublist (i : Ident) : ∀ (es : List Entry), (removeFirst i es).Sublist es
+  | [] => List.Sublist.refl _
+  | e :: es => by
+    unfold removeFirst
+    split
+    · exact List.sublist_cons_self _ _
+    · exact List.Sublist.cons_cons _ (removeFirst_sublist i es)
+
+theorem lookupKey_activeRemove (path : Str) (i : Ident) (key : Str) : ∀ (act : Active), (akeys act).Nodup →
+    lookupKey key (activeRemove path i act) =
+      if key = path then removeFirst i (lookupKey key act) else lookupKey key act
+  | [], _ => by simp [activeRemove, lookupKey, removeFirst]
+  | (k, es) :: rest, hnd => by
+    simp only [akeys, List.map_cons, List.nodup_cons] at hnd
+    unfold activeRemove
+    by_cases hk : k = path
+    · subst hk
+      simp only [if_true]
+      by_cases h : key = k
+      · subst h
+        simp only [lookupKey, if_true]
+        split
+        · rename_i hemp
+          rw [lookupKey_of_not_mem key rest hnd.1]
+          simpa using hemp
+        · simp [lookupKey]
+      · have hne : ¬ k = key := fun e => h e.symm
+        simp only [h, if_false, lookupKey, hne]
+        split
+        · rfl
+        · simp [lookupKey, hne]
+    · simp only [hk, if_false, lookupKey]
+      by_cases h : k = key
+      · subst h
+        have : ¬ k = path := hk
+        simp [this]
+      · simp only [h, if_false]
+        exact lookupKey_activeRemove path i key rest hnd.2
+
+theorem akeys_activeRemove (path : Str) (i : Ident) : ∀ (act : Active), (akeys act).Nodup →
+    akeys (activeRemove path i act) =
+      if (removeFirst i (lookupKey path act)).isEmpty then (akeys act).filter (· != path) else akeys act
+  | [], _ => by simp [activeRemove, akeys, lookupKey, removeFirst]
+  | (k, es) :: rest, hnd => by
+    simp only [akeys, List.map_cons, List.nodup_cons] at hnd
+    unfold activeRemove
+    by_cases hk : k = path
+    · subst hk
+      simp only [if_true, lookupKey]
+      have hrest : (rest.map (·.1)).filter (· != k) = rest.map (·.1) := by
+        rw [List.filter_eq_self]
+        intro x hx
+        have : x ≠ k := fun e => hnd.1 (e ▸ hx)
+        simpa using this
+      split
+      · rename_i hemp
+        simp [akeys, hemp, hrest]
+      · rename_i hemp
+        simp [akeys, hemp]
+    · have ih := akeys_activeRemove path i rest hnd.2
+      have hkp : (k != path) = true := by simpa using hk
+      simp only [hk, if_false, akeys, List.map_cons, lookupKey] at ih ⊢
+      rw [ih]
+      split <;> simp [hkp]
+
+theorem aentries_activeRemove_sublist (path : Str) (i : Ident) : ∀ (act : Active),
+    (aentries (activeRemove path i act)).Sublist (aentries act)
+  | [] => by simp [activeRemove, aentries]
+  | (k, es) :: rest => by
+    unfold activeRemove
+    by_cases hk : k = path
+    · subst hk
+      simp only [if_true]
+      split
+      · simp only [aentries, List.flatMap_cons]
+        exact List.sublist_append_right _ _
+      · simp only [aentries, List.flatMap_cons]
+        exact List.Sublist.append (removeFirst_sublist i es) (List.Sublist.refl _)
+    · simp only [hk, if_false, aentries, List.flatMap_cons]
+      exact List.Sublist.append (List.Sublist.refl _) (aentries_activeRemove_sublist path i rest)
+
+/-! ### abstraction function and invariant -/
+
+def absFn : Fn → AFn
+  | .user fid => .user fid
+  | .oneShot _ _ inner => .once (absFn inner)
+
+/-- every one-shot closure inside `f` frees responder `rid` -/
+def FnOwned (rid : Nat) : Fn → Prop
+  | .user _ => True
+  | .oneShot _ r inner => r = rid ∧ FnOwned rid inner
+
+def absResp (r : Resp) : AResp :=
+  ⟨r.disp, r.path, r.src, r.port, r.tmpl, absFn r.func, r.permanent, r.enabled⟩
+
+def abs (s : St) : ASt :=
+  ⟨s.resps.map (fun p => (p.1, absResp p.2)), s.exact.wrapped.map (·.1), s.pattern.wrapped.map (·.1),
+   akeys s.exact.active, akeys s.pattern.active, s.cmdPeriod⟩
+
+def hasPath (s : St) (rid : Nat) (key : Str) : Bool :=
+  match lookupResp s rid with
+  | some r => r.path == key
+  | none => false
+
+def Entry.mid : Entry → Nat
+  | .plain _ => 0
+  | .matcher mid .. => mid
+
+structure DInv (s : St) (k : DispKind) : Prop where
+  wrRids : ((s.disp k).wrapped.map (·.1)).Nodup
+  wr : ∀ p ∈ (s.disp k).wrapped, ∃ r mid, lookupResp s p.1 = some r ∧ r.enabled = true ∧ r.disp = k ∧
+    p.2 = .matcher mid p.1 r.src r.port r.tmpl r.func
+  en : ∀ rid r, lookupResp s rid = some r → r.enabled = true → r.disp = k → rid ∈ (s.disp k).wrapped.map (·.1)
+  mids : ((s.disp k).wrapped.map (fun p => p.2.mid)).Nodup
+  fresh : ∀ p ∈ (s.disp k).wrapped, p.2.mid < s.nextId
+  act : ∀ key, lookupKey key (s.disp k).active = ((s.disp k).wrapped.filter (fun p => hasPath s p.1 key)).map (·.2)
+  keys : (akeys (s.disp k).active).Nodup
+  nonempty : ∀ p ∈ (s.disp k).active, p.2 ≠ []
+  reg : (s.disp k).registered = !(s.disp k).active.isEmpty
+
+structure Inv (s : St) : Prop where
+  rids : (s.resps.map (·.1)).Nodup
+  own : ∀ rid r, lookupResp s rid = some r → FnOwned rid r.func
+  d : ∀ k, DInv s k
+
+theorem alookup_abs (s : St) (rid : Nat) : alookup (abs s) rid = (lookupResp s rid).map absResp := by
+  simp only [alookup, abs, lookupResp, List.find?_map, Option.map_map]
+  rfl
+
+theorem inv_init : Inv St.init := by
+  refine ⟨by simp [St.init], ?_, ?_⟩
+  · intro rid r h; simp [lookupResp, St.init] at h
+  · intro k
+    cases k <;> exact ⟨by simp [St.init, St.disp, Disp.init], by simp [St.init, St.disp, Disp.init],
+      by (intro rid r h; simp [lookupResp, St.init] at h), by simp [St.init, St.disp, Disp.init],
+      by simp [St.init, St.disp, Disp.init], by (intro key; simp [St.init, St.disp, Disp.init, lookupKey]),
+      by simp [St.init, St.disp, Disp.init, akeys], by simp [St.init, St.disp, Disp.init],
+      by simp [St.init, St.disp, Disp.init]⟩
+
+theorem abs_init : abs St.init = ASt.init := by
+  simp [abs, St.init, ASt.init, Disp.init, akeys]
+
+/-! ### state plumbing -/
+
+theorem disp_setDisp (s : St) (k k' : DispKind) (d : Disp) :
+    (s.setDisp k d).disp k' = if k' = k then d else s.disp k' := by
+  cases k <;> cases k' <;> simp [St.setDisp, St.disp]
+
+@[simp] theorem resps_setDisp (s : St) (k : DispKind) (d : Disp) : (s.setDisp k d).resps = s.resps := by
+  cases k <;> rfl
+
+@[simp] theorem nextId_setDisp (s : St) (k : DispKind) (d : Disp) : (s.setDisp k d).nextId = s.nextId := by
+  cases k <;> rfl
+
+@[simp] theorem cmd_setDisp (s : St) (k : DispKind) (d : Disp) : (s.setDisp k d).cmdPeriod = s.cmdPeriod := by
+  cases k <;> rfl
+
+theorem lookupResp_congr {s s' : St} (h : s'.resps = s.resps) (rid : Nat) :
+    lookupResp s' rid = lookupResp s rid := by simp [lookupResp, h]
+
+theorem lookupResp_setResp (s : St) (rid : Nat) (r' : Resp) (rid' : Nat) :
+    lookupResp (setResp s rid r') rid' =
+      if rid' = rid then (lookupResp s rid').map (fun _ => r') else lookupResp s rid' := by
+  unfold lookupResp setResp
+  simp only
+  induction s.resps with
+  | nil => simp
+  | cons p rest ih =>
+    simp only [List.map_cons, List.find?_cons]
+    by_cases hp : p.1 = rid
+    · have h1 : (p.1 == rid) = true := by simpa using hp
+      simp only [h1, if_true]
+      by_cases h : rid' = rid
+      · subst h
+        have h2 : (p.1 == rid') = true := h1
+        simp [h2]
+      · have h2 : (rid == rid') = false := by simpa using fun e => h e.symm
+        have h3 : (p.1 == rid') = false := by rw [hp]; exact h2
+        simp only [h2, h3, h, if_false]
+        simpa [h] using ih
+    · have h1 : (p.1 == rid) = false := by simpa using hp
+      simp only [h1, Bool.false_eq_true, if_false]
+      by_cases h3 : (p.1 == rid') = true
+      · have : rid' ≠ rid := fun e => hp (by rw [← e]; simpa using h3)
+        simp [h3, this]
+      · simp only [h3, Bool.false_eq_true, if_false] at ih ⊢
+        exact ih
+
+@[simp] theorem disp_setResp (s : St) (rid : Nat) (r : Resp) (k : DispKind) :
+    (setResp s rid r).disp k = s.disp k := by cases k <;> rfl
+
+@[simp] theorem nextId_setResp (s : St) (rid : Nat) (r : Resp) : (setResp s rid r).nextId = s.nextId := rfl
+@[simp] theorem cmd_setResp (s : St) (rid : Nat) (r : Resp) : (setResp s rid r).cmdPeriod = s.cmdPeriod := rfl
+
+theorem rids_setResp (s : St) (rid : Nat) (r : Resp) : (setResp s rid r).resps.map (·.1) = s.resps.map (·.1) := by
+  simp only [setResp, List.map_map]
+  apply List.map_congr_left
+  intro p _
+  by_cases h : (p.1 == rid) = true
+  · have : p.1 = rid := by simpa using h
+    simp [Function.comp, h, this]
+  · simp [Function.comp, h]
+
+theorem hasPath_congr {s s' : St} {rid : Nat} (h : lookupResp s' rid = lookupResp s rid) (key : Str) :
+    hasPath s' rid key = hasPath s rid key := by simp [hasPath, h]
+
+/-- a dispatcher that an operation does not touch keeps its invariant -/
+theorem DInv_frame {s s' : St} {k : DispKind} (hd : s'.disp k = s.disp k)
+    (hl : ∀ p ∈ (s.disp k).wrapped, lookupResp s' p.1 = lookupResp s p.1)
+    (hen : ∀ rid r', lookupResp s' rid = some r' → r'.enabled = true → r'.disp = k →
+      rid ∈ (s.disp k).wrapped.map (·.1))
+    (hn : s.nextId ≤ s'.nextId) (h : DInv s k) : DInv s' k := by
+  refine ⟨by rw [hd]; exact h.wrRids, ?_, ?_, by rw [hd]; exact h.mids, ?_, ?_, by rw [hd]; exact h.keys,
+    by rw [hd]; exact h.nonempty, by rw [hd]; exact h.reg⟩
+  · intro p hp
+    rw [hd] at hp
+    obtain ⟨r, mid, h1, h2, h3, h4⟩ := h.wr p hp
+    exact ⟨r, mid, by rw [hl p hp]; exact h1, h2, h3, h4⟩
+  · intro rid r' h1 h2 h3
+    rw [hd]; exact hen rid r' h1 h2 h3
+  · intro p hp
+    rw [hd] at hp
+    exact Nat.lt_of_lt_of_le (h.fresh p hp) hn
+  · intro key
+    rw [hd, h.act key]
+    congr 1
+    apply List.filter_congr
+    intro p hp
+    exact (hasPath_congr (hl p hp) key).symm
+
+/-! ### enable -/
+
+theorem not_in_wrapped_of_disabled {s : St} {k : DispKind} (h : DInv s k) {rid : Nat} {r : Resp}
+    (hr : lookupResp s rid = some r) (hen : r.enabled = false) : rid ∉ (s.disp k).wrapped.map (·.1) := by
+  intro hm
+  obtain ⟨p, hp, rfl⟩ := List.mem_map.mp hm
+  obtain ⟨r0, _, h1, h2, _, _⟩ := h.wr p hp
+  rw [hr] at h1; cases h1
+  rw [hen] at h2; cases h2
+
+theorem filter_ne_of_not_mem {rid : Nat} {wr : List (Nat × Entry)} (h : rid ∉ wr.map (·.1)) :
+    wr.filter (fun p => p.1 != rid) = wr := by
+  rw [List.filter_eq_self]
+  intro p hp
+  have : p.1 ≠ rid := fun e => h (e ▸ List.mem_map_of_mem hp)
+  simpa using this
+
+/-- the state after `enable` of a disabled responder, in explicit form -/
+def enabledState (s : St) (rid : Nat) (r : Resp) : St :=
+  let k := r.disp
+  let D := s.disp k
+  let e := wrapFunc rid r s.nextId
+  let D' : Disp := ⟨activeAppend r.path e D.active, D.wrapped ++ [(rid, e)], true⟩
+  let s1 : St := if r.permanent then s else { s with cmdPeriod := cmdAdd (.resp rid) s.cmdPeriod }
+  setResp { (s1.setDisp k D') with nextId := s.nextId + 1 } rid { r with enabled := true }
+
+theorem enable_eq {s : St} (h : Inv s) {rid : Nat} {r : Resp} (hr : lookupResp s rid = some r)
+    (hen : r.enabled = false) : enable s rid = enabledState s rid r := by
+  have hnm := not_in_wrapped_of_disabled (h.d r.disp) hr hen
+  unfold enable enabledState
+  simp only [hr, hen, Bool.false_eq_true, if_false, dispAdd]
+  cases hp : r.permanent <;> cases hk : r.disp <;>
+    simp_all [St.disp, St.setDisp, filter_ne_of_not_mem]
+
+theorem lookupResp_enabledState (s : St) (rid : Nat) (r : Resp) (hr : lookupResp s rid = some r) (rid' : Nat) :
+    lookupResp (enabledState s rid r) rid' =
+      if rid' = rid then some { r with enabled := true } else lookupResp s rid' := by
+  unfold enabledState
+  rw [lookupResp_setResp]
+  have : ∀ x, lookupResp ({ ((if r.permanent then s else { s with cmdPeriod := cmdAdd (.resp rid) s.cmdPeriod }).setDisp
+      r.disp ⟨activeAppend r.path (wrapFunc rid r s.nextId) (s.disp r.disp).active,
+        (s.disp r.disp).wrapped ++ [(rid, wrapFunc rid r s.nextId)], true⟩) with nextId := s.nextId + 1 } : St) x
+      = lookupResp s x := by
+    intro x
+    apply lookupResp_congr
+    cases r.permanent <;> simp
+  simp only [this]
+  by_cases h : rid' = rid
+  · subst h; simp [hr]
+  · simp [h]
+
+theorem disp_enabledState (s : St) (rid : Nat) (r : Resp) (k : DispKind) :
+    (enabledState s rid r).disp k =
+      if k = r.disp then ⟨activeAppend r.path (wrapFunc rid r s.nextId) (s.disp r.disp).active,
+        (s.disp r.disp).wrapped ++ [(rid, wrapFunc rid r s.nextId)], true⟩ else s.disp k := by
+  unfold enabledState
+  simp only [disp_setResp]
+  have : ∀ (t : St) (n : Nat), ({ t with nextId := n } : St).disp k = t.disp k := by
+    intro t n; cases k <;> rfl
+  rw [this, disp_setDisp]
+  by_cases h : k = r.disp
+  · simp [h]
+  · simp only [h, if_false]
+    cases r.permanent <;> cases k <;> rfl
+
+theorem nextId_enabledState (s : St) (rid : Nat) (r : Resp) : (enabledState s rid r).nextId = s.nextId + 1 := by
+  simp [enabledState]
+
+theorem cmd_enabledState (s : St) (rid : Nat) (r : Resp) :
+    (enabledState s rid r).cmdPeriod = if r.permanent then s.cmdPeriod else cmdAdd (.resp rid) s.cmdPeriod := by
+  unfold enabledState
+  cases r.permanent <;> simp
+
+theorem rids_enabledState (s : St) (rid : Nat) (r : Resp) :
+    (enabledState s rid r).resps.map (·.1) = s.resps.map (·.1) := by
+  unfold enabledState
+  rw [rids_setResp]
+  cases r.permanent <;> simp
+
+theorem wrapFunc_mid (rid : Nat) (r : Resp) (n : Nat) : (wrapFunc rid r n).mid = n := rfl
+
+theorem inv_enabledState {s : St} (h : Inv s) {rid : Nat} {r : Resp} (hr : lookupResp s rid = some r)
+    (hen : r.enabled = false) : Inv (enabledState s rid r) := by
+  have hL := lookupResp_enabledState s rid r hr
+  have hD := disp_enabledState s rid r
+  refine ⟨by rw [rids_enabledState]; exact h.rids, ?_, ?_⟩
+  · intro rid' r' h1
+    rw [hL] at h1
+    by_cases he : rid' = rid
+    · subst he
+      simp only [if_true] at h1
+      cases h1
+      exact h.own rid' r hr
+    · simp only [he, if_false] at h1
+      exact h.own _ _ h1
+  · intro k
+    by_cases hk : k = r.disp
+    · subst hk
+      have hd := h.d r.disp
+      have hnm := not_in_wrapped_of_disabled hd hr hen
+      have hDk := hD r.disp
+      simp only [if_true] at hDk
+      have hold : ∀ p ∈ (s.disp r.disp).wrapped, p.1 ≠ rid := fun p hp e => hnm (e ▸ List.mem_map_of_mem hp)
+      refine ⟨?_, ?_, ?_, ?_, ?_, ?_, ?_, ?_, ?_⟩
+      · rw [hDk]
+        simp only [List.map_append, List.map_cons, List.map_nil]
+        exact List.nodup_append.mpr ⟨hd.wrRids, by simp, by
+          intro a ha b hb
+          simp at hb; subst hb
+          exact fun e => hnm (e ▸ ha)⟩
+      · intro p hp
+        rw [hDk] at hp
+        simp only [List.mem_append, List.mem_singleton] at hp
+        rcases hp with hp | rfl
+        · obtain ⟨r0, mid, h1, h2, h3, h4⟩ := hd.wr p hp
+          refine ⟨r0, mid, ?_, h2, h3, h4⟩
+          rw [hL]; simp [hold p hp, h1]
+        · refine ⟨{ r with enabled := true }, s.nextId, by rw [hL]; simp, rfl, rfl, rfl⟩
+      · intro rid' r' h1 h2 h3
+        rw [hDk]
+        simp only [List.map_append, List.map_cons, List.map_nil, List.mem_append, List.mem_singleton]
+        rw [hL] at h1
+        by_cases he : rid' = rid
+        · exact Or.inr he
+        · simp only [he, if_false] at h1
+          exact Or.inl (hd.en rid' r' h1 h2 h3)
+      · rw [hDk]
+        simp only [List.map_append, List.map_cons, List.map_nil]
+        refine List.nodup_append.mpr ⟨hd.mids, by simp, ?_⟩
+        intro a ha b hb
+        simp at hb; subst hb
+        obtain ⟨p, hp, rfl⟩ := List.mem_map.mp ha
+        have := hd.fresh p hp
+        rw [wrapFunc_mid]; omega
+      · intro p hp
+        rw [hDk] at hp
+        rw [nextId_enabledState]
+        simp only [List.mem_append, List.mem_singleton] at hp
+        rcases hp with hp | rfl
+        · have := hd.fresh p hp; omega
+        · rw [wrapFunc_mid]; omega
+      · intro key
+        rw [hDk]
+        simp only [lookupKey_activeAppend, List.filter_append, List.map_append]
+        have hf : (s.disp r.disp).wrapped.filter (fun p => hasPath (enabledState s rid r) p.1 key)
+            = (s.disp r.disp).wrapped.filter (fun p => hasPath s p.1 key) := by
+          apply List.filter_congr
+          intro p hp
+          apply hasPath_congr
+          rw [hL]; simp [hold p hp]
+        rw [hf, ← hd.act key]
+        have hp : hasPath (enabledState s rid r) rid key = (r.path == key) := by
+          simp [hasPath, hL]
+        by_cases hkey : key = r.path
+        · subst hkey; simp [hp]
+        · have : (r.path == key) = false := by simpa using fun e => hkey e.symm
+          simp [hkey, hp, this]
+      · rw [hDk]
+        simp only [akeys_activeAppend]
+        split
+        · exact hd.keys
+        · rename_i hnin
+          exact List.nodup_append.mpr ⟨hd.keys, by simp, by
+            intro a ha b hb
+            simp at hb; subst hb
+            exact fun e => hnin (e ▸ ha)⟩
+      · rw [hDk]
+        intro p hp
+        have : ∀ (act : Active), (∀ q ∈ act, q.2 ≠ []) → ∀ q ∈ activeAppend r.path (wrapFunc rid r s.nextId) act, q.2 ≠ [] := by
+          intro act
+          induction act with
+          | nil => intro _ q hq; simp [activeAppend] at hq; subst hq; simp
+          | cons x rest ih =>
+            intro hne q hq
+            unfold activeAppend at hq
+            split at hq
+            · rcases List.mem_cons.mp hq with rfl | hq
+              · simp
+              · exact hne q (List.mem_cons_of_mem _ hq)
+            · rcases List.mem_cons.mp hq with rfl | hq
+              · exact hne _ List.mem_cons_self
+              · exact ih (fun q hq => hne q (List.mem_cons_of_mem _ hq)) q hq
+        exact this _ hd.nonempty p hp
+      · rw [hDk]
+        have : ∀ (act : Active), (activeAppend r.path (wrapFunc rid r s.nextId) act).isEmpty = false := by
+          intro act; cases act with
+          | nil => simp [activeAppend]
+          | cons x rest => unfold activeAppend; split <;> simp
+        simp [this]
+    · have hDk := hD k
+      simp only [hk, if_false] at hDk
+      apply DInv_frame hDk ?_ ?_ (by rw [nextId_enabledState]; omega) (h.d k)
+      · intro p hp
+        rw [hL]
+        have : p.1 ≠ rid := by
+          intro e
+          obtain ⟨r0, _, h1, _, h3, _⟩ := (h.d k).wr p hp
+          rw [e, hr] at h1; cases h1
+          exact hk h3.symm
+        simp [this]
+      · intro rid' r' h1 h2 h3
+        rw [hL] at h1
+        by_cases he : rid' = rid
+        · subst he
+          simp only [if_true] at h1
+          cases h1
+          exact absurd h3.symm hk
+        · simp only [he, if_false] at h1
+          exact (h.d k).en rid' r' h1 h2 h3
+
+/-! ### disable -/
+
+theorem find_wrapped {wr : List (Nat × Entry)} {rid : Nat} (h : rid ∈ wr.map (·.1)) :
+    ∃ e, wr.find? (·.1 == rid) = some (rid, e) ∧ (rid, e) ∈ wr := by
+  induction wr with
+  | nil => simp at h
+  | cons p rest ih =>
+    by_cases hp : p.1 = rid
+    · obtain ⟨a, e⟩ := p
+      simp only at hp; subst hp
+      exact ⟨e, by simp, List.mem_cons_self⟩
+    · have : (p.1 == rid) = false := by simpa using hp
+      simp only [List.map_cons, List.mem_cons] at h
+      rcases h with h | h
+      · exact absurd h.symm hp
+      · obtain ⟨e, h1, h2⟩ := ih h
+        exact ⟨e, by simp [List.find?_cons, this, h1], List.mem_cons_of_mem _ h2⟩
+
+theorem inj_of_nodup_map {α β} {f : α → β} {l : List α} (h : (l.map f).Nodup) {a b : α}
+    (ha : a ∈ l) (hb : b ∈ l) (e : f a = f b) : a = b := by
+  induction l with
+  | nil => cases ha
+  | cons x xs ih =>
+    simp only [List.map_cons, List.nodup_cons] at h
+    rcases List.mem_cons.mp ha with ha1 | ha2 <;> rcases List.mem_cons.mp hb with hb1 | hb2
+    · rw [ha1, hb1]
+    · rw [ha1] at e; exact absurd (e ▸ List.mem_map_of_mem hb2) h.1
+    · rw [hb1] at e; exact absurd (e ▸ List.mem_map_of_mem ha2) h.1
+    · exact ih h.2 ha2 hb2
+
+theorem matcher_ident_eq_iff {e1 e2 : Entry} (h1 : ∃ m o a b c f, e1 = .matcher m o a b c f)
+    (h2 : ∃ m o a b c f, e2 = .matcher m o a b c f) : e1.ident = e2.ident ↔ e1.mid = e2.mid := by
+  obtain ⟨m1, o1, a1, b1, c1, f1, rfl⟩ := h1
+  obtain ⟨m2, o2, a2, b2, c2, f2, rfl⟩ := h2
+  simp [Entry.ident, Entry.mid]
+
+/-- the state after `disable` of an enabled responder whose dispatcher entry is `e` -/
+def disabledState (s : St) (rid : Nat) (r : Resp) (e : Entry) : St :=
+  let k := r.disp
+  let D := s.disp k
+  let act := activeRemove r.path e.ident D.active
+  let D' : Disp := ⟨act, D.wrapped.filter (·.1 != rid), !act.isEmpty⟩
+  let s1 : St := if r.permanent then s else { s with cmdPeriod := cmdRemove (.resp rid) s.cmdPeriod }
+  setResp (s1.setDisp k D') rid { r with enabled := false }
+
+theorem disable_eq {s : St} (h : Inv s) {rid : Nat} {r : Resp} (hr : lookupResp s rid = some r)
+    (hen : r.enabled = true) :
+    ∃ e, (rid, e) ∈ (s.disp r.disp).wrapped ∧ disable s rid = disabledState s rid r e := by
+  have hm := (h.d r.disp).en rid r hr hen rfl
+  obtain ⟨e, hf, hmem⟩ := find_wrapped hm
+  refine ⟨e, hmem, ?_⟩
+  unfold disable disabledState
+  simp only [hr, hen, Bool.not_true, Bool.false_eq_true, if_false, dispRemove]
+  cases hp : r.permanent <;> cases hk : r.disp <;> simp_all [St.disp, St.setDisp]
+
+theorem wr_is_matcher {s : St} {k : DispKind} (hd : DInv s k) {p : Nat × Entry} (hp : p ∈ (s.disp k).wrapped) :
+    ∃ m o a b c f, p.2 = .matcher m o a b c f := by
+  obtain ⟨r, mid, _, _, _, h4⟩ := hd.wr p hp
+  exact ⟨mid, p.1, r.src, r.port, r.tmpl, r.func, h4⟩
+
+theorem ident_eq_iff_rid_eq {s : St} {k : DispKind} (hd : DInv s k) {p q : Nat × Entry}
+    (hp : p ∈ (s.disp k).wrapped) (hq : q ∈ (s.disp k).wrapped) : p.2.ident = q.2.ident ↔ p.1 = q.1 := by
+  rw [matcher_ident_eq_iff (wr_is_matcher hd hp) (wr_is_matcher hd hq)]
+  constructor
+  · intro e; rw [inj_of_nodup_map hd.mids hp hq e]
+  · intro e; rw [inj_of_nodup_map hd.wrRids hp hq e]
+
+theorem idents_nodup {s : St} {k : DispKind} (hd : DInv s k) :
+    ((s.disp k).wrapped.map (fun p => p.2.ident)).Nodup := by
+  have : ∀ (l : List (Nat × Entry)), (∀ p ∈ l, p ∈ (s.disp k).wrapped) → (l.map (fun p => p.2.mid)).Nodup →
+      (l.map (fun p => p.2.ident)).Nodup := by
+    intro l
+    induction l with
+    | nil => intro _ _; simp
+    | cons x xs ih =>
+      intro hm hn
+      simp only [List.map_cons, List.nodup_cons] at hn ⊢
+      refine ⟨?_, ih (fun p hp => hm p (List.mem_cons_of_mem _ hp)) hn.2⟩
+      intro hx
+      obtain ⟨y, hy, he⟩ := List.mem_map.mp hx
+      have := (matcher_ident_eq_iff (wr_is_matcher hd (hm y (List.mem_cons_of_mem _ hy)))
+        (wr_is_matcher hd (hm x List.mem_cons_self))).mp he
+      exact hn.1 (this ▸ List.mem_map_of_mem hy)
+  exact this _ (fun p hp => hp) hd.mids
+
+theorem lookupKey_remove {s : St} {k : DispKind} (hd : DInv s k) {rid : Nat} {r : Resp} {e : Entry}
+    (hr : lookupResp s rid = some r) (hmem : (rid, e) ∈ (s.disp k).wrapped) (key : Str) :
+    lookupKey key (activeRemove r.path e.ident (s.disp k).active) =
+      (((s.disp k).wrapped.filter (fun p => p.1 != rid)).filter (fun p => hasPath s p.1 key)).map (·.2) := by
+  rw [lookupKey_activeRemove _ _ _ _ hd.keys, hd.act key]
+  have hcomm : ((s.disp k).wrapped.filter (fun p => p.1 != rid)).filter (fun p => hasPath s p.1 key)
+      = ((s.disp k).wrapped.filter (fun p => hasPath s p.1 key)).filter (fun p => p.1 != rid) := by
+    simp only [List.filter_filter]
+    apply List.filter_congr
+    intro p _
+    exact Bool.and_comm _ _
+  by_cases hk : key = r.path
+  · subst hk
+    simp only [if_true]
+    have hnd : ((((s.disp k).wrapped.filter (fun p => hasPath s p.1 r.path)).map (·.2)).map Entry.ident).Nodup := by
+      rw [List.map_map]
+      exact List.Nodup.sublist (List.Sublist.map _ List.filter_sublist) (idents_nodup hd)
+    rw [removeFirst_eq_filter _ _ hnd, hcomm, List.filter_map]
+    congr 1
+    apply List.filter_congr
+    intro p hp
+    have hpw := (List.mem_filter.mp hp).1
+    have := ident_eq_iff_rid_eq hd hpw hmem
+    show (p.2.ident != e.ident) = (p.1 != rid)
+    by_cases h1 : p.1 = rid
+    · have h2 : p.2.ident = e.ident := this.mpr h1
+      rw [show (p.2.ident != e.ident) = false from by simpa using h2,
+        show (p.1 != rid) = false from by simpa using h1]
+    · have h2 : ¬ p.2.ident = e.ident := fun x => h1 (this.mp x)
+      rw [show (p.2.ident != e.ident) = true from by simpa using h2,
+        show (p.1 != rid) = true from by simpa using h1]
+  · simp only [hk, if_false]
+    rw [hcomm]
+    congr 1
+    symm
+    rw [List.filter_eq_self]
+    intro p hp
+    have hh := (List.mem_filter.mp hp).2
+    have : p.1 ≠ rid := by
+      intro e1
+      rw [e1] at hh
+      simp only [hasPath, hr] at hh
+      have hh' : r.path = key := by simpa using hh
+      exact hk hh'.symm
+    simpa using this
+
+theorem activeRemove_nonempty (path : Str) (i : Ident) : ∀ (act : Active), (∀ q ∈ act, q.2 ≠ []) →
+    ∀ q ∈ activeRemove path i act, q.2 ≠ []
+  | [], _, q, hq => by simp [activeRemove] at hq
+  | (k, es) :: rest, hne, q, hq => by
+    unfold activeRemove at hq
+    split at hq
+    · simp only at hq
+      split at hq
+      · exact hne q (List.mem_cons_of_mem _ hq)
+      · rename_i hemp
+        rcases List.mem_cons.mp hq with rfl | hq
+        · intro e; exact hemp (by simpa using e)
+        · exact hne q (List.mem_cons_of_mem _ hq)
+    · rcases List.mem_cons.mp hq with rfl | hq
+      · exact hne _ List.mem_cons_self
+      · exact activeRemove_nonempty path i rest (fun q hq => hne q (List.mem_cons_of_mem _ hq)) q hq
+
+theorem lookupResp_disabledState (s : St) (rid : Nat) (r : Resp) (e : Entry) (hr : lookupResp s rid = some r)
+    (rid' : Nat) :
+    lookupResp (disabledState s rid r e) rid' =
+      if rid' = rid then some { r with enabled := false } else lookupResp s rid' := by
+  unfold disabledState
+  rw [lookupResp_setResp]
+  have : ∀ (D : Disp) x, lookupResp ((if r.permanent then s else { s with cmdPeriod := cmdRemove (.resp rid) s.cmdPeriod }).setDisp
+      r.disp D) x = lookupResp s x := by
+    intro D x
+    apply lookupResp_congr
+    cases r.permanent <;> simp
+  simp only [this]
+  by_cases h : rid' = rid
+  · subst h; simp [hr]
+  · simp [h]
+
+theorem disp_disabledState (s : St) (rid : Nat) (r : Resp) (e : Entry) (k : DispKind) :
+    (disabledState s rid r e).disp k =
+      if k = r.disp then ⟨activeRemove r.path e.ident (s.disp r.disp).active,
+        (s.disp r.disp).wrapped.filter (·.1 != rid),
+        !(activeRemove r.path e.ident (s.disp r.disp).active).isEmpty⟩ else s.disp k := by
+  unfold disabledState
+  simp only [disp_setResp]
+  rw [disp_setDisp]
+  by_cases h : k = r.disp
+  · subst h
+    simp
+  · simp only [h, if_false]
+    cases r.permanent <;> cases k <;> rfl
+
+theorem nextId_disabledState (s : St) (rid : Nat) (r : Resp) (e : Entry) :
+    (disabledState s rid r e).nextId = s.nextId := by
+  unfold disabledState
+  cases r.permanent <;> simp
+
+theorem cmd_disabledState (s : St) (rid : Nat) (r : Resp) (e : Entry) :
+    (disabledState s rid r e).cmdPeriod =
+      if r.permanent then s.cmdPeriod else cmdRemove (.resp rid) s.cmdPeriod := by
+  unfold disabledState
+  cases r.permanent <;> simp
+
+theorem rids_disabledState (s : St) (rid : Nat) (r : Resp) (e : Entry) :
+    (disabledState s rid r e).resps.map (·.1) = s.resps.map (·.1) := by
+  unfold disabledState
+  rw [rids_setResp]
+  cases r.permanent <;> simp
+
+theorem inv_disabledState {s : St} (h : Inv s) {rid : Nat} {r : Resp} {e : Entry}
+    (hr : lookupResp s rid = some r) (hmem : (rid, e) ∈ (s.disp r.disp).wrapped) :
+    Inv (disabledState s rid r e) := by
+  have hL := lookupResp_disabledState s rid r e hr
+  have hD := disp_disabledState s rid r e
+  refine ⟨by rw [rids_disabledState]; exact h.rids, ?_, ?_⟩
+  · intro rid' r' h1
+    rw [hL] at h1
+    by_cases he : rid' = rid
+    · subst he
+      simp only [if_true] at h1
+      cases h1
+      exact h.own rid' r hr
+    · simp only [he, if_false] at h1
+      exact h.own _ _ h1
+  · intro k
+    by_cases hk : k = r.disp
+    · subst hk
+      have hd := h.d r.disp
+      have hDk := hD r.disp
+      simp only [if_true] at hDk
+      have hsub : ((s.disp r.disp).wrapped.filter (·.1 != rid)).Sublist (s.disp r.disp).wrapped :=
+        List.filter_sublist
+      have hmemf : ∀ p, p ∈ (s.disp r.disp).wrapped.filter (·.1 != rid) ↔ p ∈ (s.disp r.disp).wrapped ∧ p.1 ≠ rid := by
+        intro p; simp [List.mem_filter]
+      refine ⟨?_, ?_, ?_, ?_, ?_, ?_, ?_, ?_, ?_⟩
+      · rw [hDk]; exact List.Nodup.sublist (List.Sublist.map _ hsub) hd.wrRids
+      · intro p hp
+        rw [hDk] at hp
+        obtain ⟨hp1, hp2⟩ := (hmemf p).mp hp
+        obtain ⟨r0, mid, h1, h2, h3, h4⟩ := hd.wr p hp1
+        exact ⟨r0, mid, by rw [hL]; simp [hp2, h1], h2, h3, h4⟩
+      · intro rid' r' h1 h2 h3
+        rw [hL] at h1
+        by_cases he : rid' = rid
+        · subst he
+          simp only [if_true] at h1
+          cases h1
+          cases h2
+        · simp only [he, if_false] at h1
+          rw [hDk]
+          obtain ⟨p, hp, rfl⟩ := List.mem_map.mp (hd.en rid' r' h1 h2 h3)
+          exact List.mem_map_of_mem ((hmemf p).mpr ⟨hp, he⟩)
+      · rw [hDk]; exact List.Nodup.sublist (List.Sublist.map _ hsub) hd.mids
+      · intro p hp
+        rw [hDk] at hp
+        rw [nextId_disabledState]
+        exact hd.fresh p ((hmemf p).mp hp).1
+      · intro key
+        rw [hDk]
+        simp only
+        rw [lookupKey_remove hd hr hmem key]
+        congr 1
+        apply List.filter_congr
+        intro p hp
+        apply (hasPath_congr _ key).symm
+        rw [hL]
+        simp [((hmemf p).mp hp).2]
+      · rw [hDk]
+        simp only
+        rw [akeys_activeRemove _ _ _ hd.keys]
+        split
+        · exact List.Nodup.sublist List.filter_sublist hd.keys
+        · exact hd.keys
+      · rw [hDk]
+        exact activeRemove_nonempty _ _ _ hd.nonempty
+      · rw [hDk]
+    · have hDk := hD k
+      simp only [hk, if_false] at hDk
+      apply DInv_frame hDk ?_ ?_ (by rw [nextId_disabledState]; omega) (h.d k)
+      · intro p hp
+        rw [hL]
+        have : p.1 ≠ rid := by
+          intro e1
+          obtain ⟨r0, _, h1, _, h3, _⟩ := (h.d k).wr p hp
+          rw [e1, hr] at h1; cases h1
+          exact hk h3.symm
+        simp [this]
+      · intro rid' r' h1 h2 h3
+        rw [hL] at h1
+        by_cases he : rid' = rid
+        · subst he
+          simp only [if_true] at h1
+          cases h1
+          cases h2
+        · simp only [he, if_false] at h1
+          exact (h.d k).en rid' r' h1 h2 h3
+
+theorem abs_resps_setResp (s : St) (rid : Nat) (r' : Resp) :
+    (setResp s rid r').resps.map (fun p => (p.1, absResp p.2))
+      = (s.resps.map (fun p => (p.1, absResp p.2))).map (fun p => if p.1 == rid then (rid, absResp r') else p) := by
+  simp only [setResp, List.map_map]
+  apply List.map_congr_left
+  intro p _
+  by_cases h : (p.1 == rid) = true <;> simp [Function.comp, h]
+
+theorem isEmpty_filter_map {α β} (l : List α) (p : α → Bool) (f : α → β) :
+    ((l.filter p).map f).isEmpty = !l.any p := by
+  induction l with
+  | nil => rfl
+  | cons x xs ih =>
+    by_cases h : p x = true
+    · simp [List.filter_cons, h]
+    · simp only [List.filter_cons, h, List.any_cons, Bool.false_eq_true, if_false]
+      simp only [Bool.not_eq_true] at h
+      simp [h, ih]
+
+theorem ASt.ext' {a b : ASt} (h1 : a.resps = b.resps) (h2 : ∀ k, a.ord k = b.ord k) (h3 : ∀ k, a.keys k = b.keys k)
+    (h4 : a.cmd = b.cmd) : a = b := by
+  cases a; cases b
+  have e1 := h2 .exact; have e2 := h2 .pattern; have e3 := h3 .exact; have e4 := h3 .pattern
+  simp only [ASt.ord, ASt.keys] at e1 e2 e3 e4
+  simp_all
+
+theorem ord_withDisp (a : ASt) (k k' : DispKind) (o : List Nat) (ks : List Str) :
+    (a.withDisp k o ks).ord k' = if k' = k then o else a.ord k' := by
+  cases k <;> cases k' <;> simp [ASt.withDisp, ASt.ord]
+
+theorem keys_withDisp (a : ASt) (k k' : DispKind) (o : List Nat) (ks : List Str) :
+    (a.withDisp k o ks).keys k' = if k' = k then ks else a.keys k' := by
+  cases k <;> cases k' <;> simp [ASt.withDisp, ASt.keys]
+
+@[simp] theorem resps_withDisp (a : ASt) (k : DispKind) (o : List Nat) (ks : List Str) :
+    (a.withDisp k o ks).resps = a.resps := by cases k <;> rfl
+@[simp] theorem cmd_withDisp (a : ASt) (k : DispKind) (o : List Nat) (ks : List Str) :
+    (a.withDisp k o ks).cmd = a.cmd := by cases k <;> rfl
+@[simp] theorem ord_aset (a : ASt) (rid : Nat) (r : AResp) (k : DispKind) : (aset a rid r).ord k = a.ord k := by
+  cases k <;> rfl
+@[simp] theorem keys_aset (a : ASt) (rid : Nat) (r : AResp) (k : DispKind) : (aset a rid r).keys k = a.keys k := by
+  cases k <;> rfl
+@[simp] theorem ord_withCmd (a : ASt) (c : List ActKey) (k : DispKind) : ({ a with cmd := c } : ASt).ord k = a.ord k := by
+  cases k <;> rfl
+@[simp] theorem keys_withCmd (a : ASt) (c : List ActKey) (k : DispKind) : ({ a with cmd := c } : ASt).keys k = a.keys k := by
+  cases k <;> rfl
+
+theorem abs_ord (s : St) (k : DispKind) : (abs s).ord k = (s.disp k).wrapped.map (·.1) := by cases k <;> rfl
+theorem abs_keys (s : St) (k : DispKind) : (abs s).keys k = akeys (s.disp k).active := by cases k <;> rfl
+
+theorem ahasPath_abs (s : St) (rid : Nat) (path : Str) : ahasPath (abs s) rid path = hasPath s rid path := by
+  unfold ahasPath hasPath
+  rw [alookup_abs]
+  cases lookupResp s rid <;> rfl
+
+theorem abs_disabledState {s : St} (h : Inv s) {rid : Nat} {r : Resp} {e : Entry}
+    (hr : lookupResp s rid = some r) (hen : r.enabled = true) (hmem : (rid, e) ∈ (s.disp r.disp).wrapped) :
+    abs (disabledState s rid r e) = adisable (abs s) rid := by
+  have hD := disp_disabledState s rid r e
+  have hd := h.d r.disp
+  have hfm : ∀ (wr : List (Nat × Entry)), (wr.filter (·.1 != rid)).map (·.1) = (wr.map (·.1)).filter (· != rid) := by
+    intro wr; rw [List.filter_map]; rfl
+  have hkeys : akeys (activeRemove r.path e.ident (s.disp r.disp).active) =
+      if (((s.disp r.disp).wrapped.map (·.1)).filter (· != rid)).any (fun x => hasPath s x r.path)
+      then akeys (s.disp r.disp).active else (akeys (s.disp r.disp).active).filter (· != r.path) := by
+    rw [akeys_activeRemove _ _ _ hd.keys]
+    have h1 := lookupKey_remove hd hr hmem r.path
+    rw [lookupKey_activeRemove _ _ _ _ hd.keys] at h1
+    simp only [if_true] at h1
+    rw [h1, isEmpty_filter_map, ← hfm, List.any_map]
+    have : ((fun x => hasPath s x r.path) ∘ fun (x : Nat × Entry) => x.1) = fun p => hasPath s p.1 r.path := rfl
+    rw [this]
+    cases ((s.disp r.disp).wrapped.filter (·.1 != rid)).any (fun p => hasPath s p.1 r.path) <;> simp
+  unfold adisable
+  rw [alookup_abs, hr]
+  simp only [Option.map_some]
+  have hen' : (absResp r).enabled = true := by simp [absResp, hen]
+  simp only [hen', Bool.not_true, Bool.false_eq_true, if_false]
+  apply ASt.ext'
+  · have hres : (disabledState s rid r e).resps = (setResp s rid { r with enabled := false }).resps := by
+      unfold disabledState
+      cases r.permanent <;> simp [setResp]
+    show (disabledState s rid r e).resps.map _ = _
+    rw [hres, abs_resps_setResp]
+    simp [aset, abs, absResp]
+  · intro k
+    rw [abs_ord, hD k]
+    simp only [ord_withCmd, ord_withDisp, ord_aset, abs_ord, absResp]
+    split
+    · rename_i hk; subst hk; simp [hfm]
+    · rfl
+  · intro k
+    rw [abs_keys, hD k]
+    simp only [keys_withCmd, keys_withDisp, keys_aset, abs_keys, abs_ord, absResp, ahasPath_abs]
+    split
+    · rename_i hk; subst hk; simp only [hkeys]
+    · rfl
+  · show (disabledState s rid r e).cmdPeriod = _
+    rw [cmd_disabledState]
+    rfl
+
+theorem abs_enabledState {s : St} (h : Inv s) {rid : Nat} {r : Resp} (hr : lookupResp s rid = some r)
+    (hen : r.enabled = false) : abs (enabledState s rid r) = aenable (abs s) rid := by
+  have hD := disp_enabledState s rid r
+  unfold aenable
+  rw [alookup_abs, hr]
+  simp only [Option.map_some]
+  have hen' : (absResp r).enabled = false := by simp [absResp, hen]
+  simp only [hen', Bool.false_eq_true, if_false]
+  apply ASt.ext'
+  · have hres : (enabledState s rid r).resps = (setResp s rid { r with enabled := true }).resps := by
+      unfold enabledState
+      cases r.permanent <;> simp [setResp]
+    show (enabledState s rid r).resps.map _ = _
+    rw [hres, abs_resps_setResp]
+    simp [aset, abs, absResp]
+  · intro k
+    rw [abs_ord, hD k]
+    simp only [ord_withCmd, ord_withDisp, ord_aset, abs_ord, absResp]
+    split
+    · rename_i hk; subst hk; simp
+    · rfl
+  · intro k
+    rw [abs_keys, hD k]
+    simp only [keys_withCmd, keys_withDisp, keys_aset, abs_keys, absResp]
+    split
+    · rename_i hk; subst hk
+      simp only [akeys_activeAppend, List.contains_iff_mem]
+    · rfl
+  · show (enabledState s rid r).cmdPeriod = _
+    rw [cmd_enabledState]
+    rfl
+
+/-- `enable` refines -/
+theorem enable_refines {s : St} (h : Inv s) (rid : Nat) :
+    Inv (enable s rid) ∧ abs (enable s rid) = aenable (abs s) rid := by
+  cases hr : lookupResp s rid with
+  | none =>
+    have : enable s rid = s := by simp [enable, hr]
+    rw [this]
+    refine ⟨h, ?_⟩
+    simp [aenable, alookup_abs, hr]
+  | some r =>
+    cases hen : r.enabled
+    · rw [enable_eq h hr hen]
+      exact ⟨inv_enabledState h hr hen, abs_enabledState h hr hen⟩
+    · have : enable s rid = s := by simp [enable, hr, hen]
+      rw [this]
+      refine ⟨h, ?_⟩
+      simp [aenable, alookup_abs, hr, absResp, hen]
+
+/-- `disable` / `free` refine -/
+theorem disable_refines {s : St} (h : Inv s) (rid : Nat) :
+    Inv (disable s rid) ∧ abs (disable s rid) = adisable (abs s) rid := by
+  cases hr : lookupResp s rid with
+  | none =>
+    have : disable s rid = s := by simp [disable, hr]
+    rw [this]
+    refine ⟨h, ?_⟩
+    simp [adisable, alookup_abs, hr]
+  | some r =>
+    cases hen : r.enabled
+    · have : disable s rid = s := by simp [disable, hr, hen]
+      rw [this]
+      refine ⟨h, ?_⟩
+      simp [adisable, alookup_abs, hr, absResp, hen]
+    · obtain ⟨e, hmem, heq⟩ := disable_eq h hr hen
+      rw [heq]
+      exact ⟨inv_disabledState h hr hmem, abs_disabledState h hr hen hmem⟩
+
 end Sc3Verif.C18
